@@ -41,7 +41,7 @@ def long_inputs(rng: random.Random):
 def run(chk: core.Check, tier: str, seed: int) -> None:
     jp = core.import_repo()
     rng = random.Random(seed)
-    texts = list(corpus.SEEDS) + corpus.repo_test_queries() + long_inputs(rng) + corpus.literal_queries()
+    texts = list(corpus.SEEDS) + corpus.repo_test_queries() + long_inputs(rng) + corpus.literal_queries() + corpus.skeletons(rng)
     texts += corpus.valid_candidates(rng, 1500 if tier == "quick" else 40000)
     base = list(texts)
     for s in base[: (400 if tier == "quick" else 5000)]:
